@@ -7,7 +7,7 @@
 //!     sf     : `panic` | (`ok` | `badtri f` | `badadj t1 t2 e0 e1`) <state>
 //!     rev    : `panic` | <state>
 //!     app    : `rhsfail` (rhs could not be built, op skipped) | `panic` | <state>
-//! state = V nv coords I ni idx F flags D <derived> L <lit> G <der>
+//! state = V nv coords I ni idx F flags A <root aabb mins maxs> Q <1 iff the QBVH equals the QBVH of the fresh builds> D <derived> L <lit> G <der>
 //!     derived = T <topo> C <cc> P <pn>
 //!     lit = `e` (indices empty) | `u` (a fresh with_flags on the current buffers+flags changes the buffers)
 //!           | <derived> of that fresh mesh
@@ -130,16 +130,28 @@ macro_rules! dim_impl {
                 }
                 s
             }
+            fn qdump(m: &TriMesh) -> String {
+                format!("{:?} {:?} {:?}", m.qbvh().raw_nodes(), m.qbvh().raw_proxies(), m.qbvh().root_aabb())
+            }
             fn state(m: &TriMesh) -> String {
                 let mut s = format!("V {}", m.vertices().len());
                 for p in m.vertices() { s.push(' '); s.push_str(&ffs(p.coords.iter())); }
                 s.push_str(&format!(" I {}", m.indices().len()));
                 for t in m.indices() { s.push_str(&format!(" {} {} {}", t[0], t[1], t[2])); }
                 let f = m.flags().bits();
-                s.push_str(&format!(" F {} D {}", f, derived(m)));
+                let bl = build(m.vertices().to_vec(), m.indices().to_vec(), f);
+                let bg = build(m.vertices().to_vec(), m.indices().to_vec(), derive_flags(f));
+                // QBVH: root box, and structural equality with the QBVH of the fresh builds
+                let ab = m.local_aabb();
+                let mut q = 1;
+                if let Some(Ok(fr)) = &bg { if qdump(fr) != qdump(m) { q = 0; } }
+                if let Some(Ok(fr)) = &bl {
+                    if fr.vertices() == m.vertices() && fr.indices() == m.indices() && qdump(fr) != qdump(m) { q = 0; }
+                }
+                s.push_str(&format!(" F {} A {} {} Q {} D {}", f, ffs(ab.mins.coords.iter()), ffs(ab.maxs.coords.iter()), q, derived(m)));
                 // literal fresh build
                 s.push_str(" L ");
-                match build(m.vertices().to_vec(), m.indices().to_vec(), f) {
+                match bl {
                     None => s.push_str("panic"),
                     Some(Err(())) => s.push_str("e"),
                     Some(Ok(fr)) => {
@@ -148,7 +160,7 @@ macro_rules! dim_impl {
                     }
                 }
                 s.push_str(" G ");
-                match build(m.vertices().to_vec(), m.indices().to_vec(), derive_flags(f)) {
+                match bg {
                     None => s.push_str("panic"),
                     Some(Err(())) => s.push_str("e"),
                     Some(Ok(fr)) => s.push_str(&derived(&fr)),
